@@ -272,12 +272,15 @@ func c15Machine(t *rapid.T, rec *ev.Rec, profile string) {
 	if profile == "versions" {
 		weights = []int{8, 30, 24, 7, 12, 4, 1, 1, 3, 1}
 	} else {
-		weights = []int{2, 5, 4, 2, 40, 36, 5, 5, 1, 0}
+		// some scripts never reopen, so that the clock reaches 15 and 31
+		reopen := gen.Pick(t, "reopen weight", []int{0, 0, 2, 6, 12})
+		weights = []int{2, 5, 4, 2, 40, 40, reopen, 4, 1, 0}
 	}
 	nops := 20 + gen.Uniform(t, "nops", 181)
 	if profile == "chain" {
-		nops = 30 + gen.Uniform(t, "nops", 71)
+		nops = 30 + gen.Uniform(t, "nops", 101)
 	}
+	dirty := false // the chain's Hamt changed since the last write
 
 	fail := func(format string, args ...any) {
 		t.Fatalf("after %d ops [%s]: %s", strings.Count(trace.String(), " "), clipTrace(trace.String()), fmt.Sprintf(format, args...))
@@ -332,7 +335,11 @@ func c15Machine(t *rapid.T, rec *ev.Rec, profile string) {
 
 	for op := 0; op < nops; op++ {
 		var p any
-		switch gen.Weighted(t, "op", weights) {
+		opc := gen.Weighted(t, "op", weights)
+		if opc == 5 && !dirty && profile == "chain" && gen.Chance(t, "change first", 90) {
+			opc = 4 // a write cycle with nothing to write teaches little
+		}
+		switch opc {
 		case 0: // sbegin: a mutable copy of any frozen version
 			nm := 0
 			for _, v := range versions {
@@ -459,6 +466,7 @@ func c15Machine(t *rapid.T, rec *ev.Rec, profile string) {
 				pm.mutable = false
 				cur.Hamt = pm.h
 				curV = pm
+				dirty = true
 				trace.WriteString(") ")
 			})
 		case 5: // write: one persist cycle
@@ -469,6 +477,7 @@ func c15Machine(t *rapid.T, rec *ev.Rec, profile string) {
 				wrote := c2.Clock != clock
 				cur = c2
 				lastOff = off
+				dirty = false
 				st.writes++
 				if wrote {
 					st.writesWithData++
@@ -511,6 +520,7 @@ func c15Machine(t *rapid.T, rec *ev.Rec, profile string) {
 					panic("reopen: " + msg)
 				}
 				cur = rc
+				dirty = false
 				curV = &hver{id: newID(), h: rc.Hamt, m: map[hkey]*hitem{}, mods: map[hkey]int{}}
 				for it := range rc.All() {
 					curV.m[it.k] = it
